@@ -20,9 +20,7 @@
      desc_info    = what update_item_with_descriptor_helper derives from a descriptor.
      sig_flag, sighash_ecdsa = sighash-type decoding used by sanity_check.
      inp_mall     = the allow_mall flag the single-input API hands to finalize_input
-                    (today finalize_inp_mall_mut passes `false`; tabulated by the harness).
-     keep_unknown = whether finalize_input keeps the input's `unknown` map (today it does
-                    not; tabulated by the harness). *)
+                    (today finalize_inp_mall_mut passes `false`; tabulated by the harness). *)
 From Coq Require Export List Bool NArith Arith.
 Export ListNotations.
 
@@ -234,10 +232,12 @@ Definition nz (x : N) : option N := if (x =? 0)%N then None else Some x.
 Definition is_final (a : pinput) : bool := is_some (i_fsig a) || is_some (i_fwit a).
 
 (* finalize_input's mutation: mem::take, then restore the two utxo fields and set the finals *)
-(* [ku]: does the code keep the `unknown` map (BIP174 says it should)?  Tabulated on every run. *)
-Definition cleared (ku : bool) (a : pinput) (s w : N) : pinput :=
+(* finalize_input's mutation: mem::take, then restore the two utxo fields and the unknown
+   key-value pairs (BIP174: "All other data except the UTXO and unknown fields ... should be
+   cleared"), and set the finals *)
+Definition cleared (a : pinput) (s w : N) : pinput :=
   mkIn (i_nwutxo a) (i_wutxo a) [] None None None [] (nz s) (nz w) [] [] [] [] None [] [] [] None None []
-       (if ku then i_unknown a else []).
+       (i_unknown a).
 
 Section Model.
   Variable try_input : psbt -> nat -> bool -> tryres.
@@ -246,7 +246,6 @@ Section Model.
   Variable sig_flag : N -> option N.
   Variable sighash_ecdsa : N -> option N.
   Variable inp_mall : bool -> bool.
-  Variable keep_unknown : bool.
 
   (* ---- mod.rs sanity_check *)
   Fixpoint sanity_sigs (target : N) (sigs : amap) : option N :=
@@ -292,7 +291,7 @@ Section Model.
         if is_final a then FOk st                      (* "Preserve previously finalized inputs" *)
         else match try_input st i mall with
              | TErr e => FErr e                        (* `?` before any mutation *)
-             | TOk s w => FOk (with_inputs st (set_nth i (cleared keep_unknown a s w) (p_inputs st)))
+             | TOk s w => FOk (with_inputs st (set_nth i (cleared a s w) (p_inputs st)))
              end
     end.
 
